@@ -137,5 +137,6 @@ void lemma_seq_consecutive(void)
     SeqNumberAttr_attributes(&a, &m2);
     int n2 = g_hash_int;
     __CPROVER_assert(g_hash_key.id == k1.id && g_hash_key.len == k1.len, "same attribute name");
+    __CPROVER_assert(n2 - n1 >= 0 && n2 - n1 <= 2, "numbers never go backwards (from the one-step contracts alone)");
     LEMMA_END;
 }
